@@ -438,6 +438,10 @@ func (fd *Client) Query(input *dynamodb.QueryInput) (*dynamodb.QueryOutput, erro
 		return nil, awserr.New("ValidationException", "The table does not have the specified index: "+indexName, nil)
 	}
 
+	if err := table.ValidateStartKey(indexName, mapAttributeValueToTypes(input.ExclusiveStartKey)); err != nil {
+		return nil, err
+	}
+
 	if input.ScanIndexForward == nil {
 		input.ScanIndexForward = aws.Bool(true)
 	}
@@ -492,6 +496,10 @@ func (fd *Client) Scan(input *dynamodb.ScanInput) (*dynamodb.ScanOutput, error) 
 
 	if _, ok := table.Indexes[indexName]; indexName != "" && !ok {
 		return nil, awserr.New("ValidationException", "The table does not have the specified index: "+indexName, nil)
+	}
+
+	if err := table.ValidateStartKey(indexName, mapAttributeValueToTypes(input.ExclusiveStartKey)); err != nil {
+		return nil, err
 	}
 
 	items, lastKey := table.SearchData(core.QueryInput{
